@@ -35,6 +35,8 @@ class Prop:
         self.technique = technique
         self.design_ref = design_ref
         self.model_input = None         # (case, impl answer) -> model input line (inputs read off the implementation)
+        self.aggregate = None           # (cases, verdicts, feats) -> {index: "bad:..."}: clauses that are statements
+                                        # about a family of cases ("up to rare collisions"), not about single ones
 
 
 def default_describe(case):
@@ -186,6 +188,10 @@ def run_check(prop, tier, seed, replay=None):
         else:
             cases = dedupe(core.corpus_cases(pid) + prop.gen(tier, rng))
         impl, model, verdicts, feats, crashes = evaluate(prop, exe, cases)
+        if prop.aggregate:
+            for i, v in prop.aggregate(cases, verdicts, feats).items():
+                if verdicts[i] == "ok":
+                    verdicts[i] = v
         if prop.statics:
             static_problems = prop.statics(exe)
             corr_problems.extend(static_problems)
@@ -219,6 +225,10 @@ def run_check(prop, tier, seed, replay=None):
         extra = [c for c in extra if c not in set(cases)]
         if extra:
             i2, m2, v2, f2, c2 = evaluate(prop, exe, extra)
+            if prop.aggregate:
+                for i, v in prop.aggregate(extra, v2, f2).items():
+                    if v2[i] == "ok":
+                        v2[i] = v
             searched = len(extra)
             base = len(cases)
             cases += extra; impl += i2; model += m2; verdicts += v2; feats += f2
